@@ -248,6 +248,29 @@ func registerModels2(e *Engine) {
 		}
 		return r
 	}
+	// Bits: the little-endian 64-bit words of |x| without leading zero words;
+	// the word count is decided by forking (0..3 words in the 192-bit model).
+	// The result is a fresh slice (the real one aliases x; writing through it
+	// is outside the model).
+	ic["(*math/big.Int).Bits"] = func(e *Engine, st *State, fr *Frame, in ssa.CallInstruction, a []Val) Val {
+		m := abs(e.bigGet(st, a[0]))
+		n := bigW / 64
+		for k := 0; k < bigW/64; k++ {
+			if e.decide(st, BvCmp("bvult", m, bigConst(new(big.Int).Lsh(big.NewInt(1), uint(64*k))))) {
+				n = k
+				break
+			}
+		}
+		arr := make([]Val, n)
+		for i := 0; i < n; i++ {
+			arr[i] = Extract(64*i+63, 64*i, m)
+		}
+		if n == 0 {
+			return SliceVal{}
+		}
+		id := st.alloc(ArrayVal{arr})
+		return SliceVal{id, 0, n, n}
+	}
 	ic["(*math/big.Int).Abs"] = func(e *Engine, st *State, fr *Frame, in ssa.CallInstruction, a []Val) Val {
 		x := e.bigGetV(st, a[1])
 		return e.bigSetV(st, a[0], abs(x.t), x.bits+1)
